@@ -198,6 +198,16 @@ struct WorldSO : World, Net {
     std::string mp = t.qp("mess", 700, true);
     k->put_file(mp, msg, 0644, t.uids["qmailq"], t.gid_qmail);
     std::vector<std::string> argv = {"qmail-remote", host, sender}; for (auto &r : rcpts) argv.push_back(r);
+    // earlier attempts of the same delivery (separate qmail-remote processes, minutes apart): what they leave behind in
+    // queue/lock/tcpto shapes the attempt that is judged
+    for (int64_t er = 0; er < plan->knobs.geti("earlier_runs", 0); er++) {
+      Sink *junk = k->new_sink("earlier-run");
+      k->spawn(k->cp(), t.home + "/bin/qmail-remote", argv, {}, {{0, k->of_file(mp, O_RDONLY)}, {1, k->of_sink(junk)}, {2, k->of_sink(errs)}}, t.uids["qmailr"], t.gid_qmail, "/");
+      k->block([this] { for (auto &pp : k->procs) if (pp.second->st == Proc::LIVE && !pp.second->immortal) return false; return true; }, k->clock + 1000000, false, true);
+      k->block([] { return false; }, k->clock + plan->knobs.geti("earlier_gap_s", 150), false);
+      k->probe("earlier_remote_run");
+    }
+    connect_order.clear();
     remote_pid = k->spawn(k->cp(), t.home + "/bin/qmail-remote", argv, {}, {{0, k->of_file(mp, O_RDONLY)}, {1, k->of_sink(rout)}, {2, k->of_sink(errs)}}, t.uids["qmailr"], t.gid_qmail, "/");
     k->block([this] { for (auto &pp : k->procs) if (pp.second->st == Proc::LIVE && !pp.second->immortal) return false; return true; }, k->clock + 1000000, false, true);
     k->stop = true;
